@@ -198,15 +198,50 @@ class Gen:
                 for s in (b'env', b'quiet', b'root', b'targets', b'parallel'):
                     if r.random() < 0.7:
                         names.append(b'regress-' + p + b'-' + s)
+            if r.random() < 0.5:
+                # names next to the pattern rows regress-*-env / -targets / -parallel: no test name, the star itself, nested suffixes
+                names += r.sample([b'regress--env', b'regress-targets', b'regress-*-env', b'regress-*-targets', b'regress-x-env-env',
+                                   b'regress--targets', b'regress-a-b-parallel', b'regress-parallel', b'regress-a-targets-env',
+                                   b'regress-envx', b'regress-a-Env'], 4)
         if r.random() < 0.5:
             r.shuffle(names)
         lines = [n + b'=<${' + n + b'}>' for n in names]
+        if r.random() < 0.4:
+            # many references on one line: computed defaults are defined by the first one, the later ones read the variable
+            some = [r.choice(names) for _ in range(r.choice([2, 3, 8, 30]))]
+            lines.insert(r.randint(0, len(lines)), b'many=' + b' '.join(b'${' + n + b'}' for n in some))
         if mode == 'robsd-regress':
             if rdn is None:
                 rdn = r.choice([0, 1, 2, 3, 10, 244, 245, 246, 247, 300, 500])
             if rdn:
                 lines.insert(r.randint(0, len(lines)), b'rd=' + b' '.join([b'${rdomain}'] * rdn))
         return b'\n'.join(lines) + b'\n'
+
+    # ---- ${builddir} needed while ${builddir} is being computed (findings/D18_builddir_reentry.md)
+    def reentry(self, mode, ents, st):
+        """returns (label, text): the root directory's value refers to a list variable that is defined LATER and
+        expands to ${builddir} (directly or through a documented default rooted in builddir); a later directory
+        value may need ${builddir} while parsing"""
+        r = self.rng
+        via = r.choice([b'hook', b'skip'])
+        rootkw = b'canvas-dir' if mode == 'canvas' else b'robsddir'
+        ents = [list(e) for e in ents if e[0] not in (via, rootkw)]
+        inner = r.choice([b'${builddir}', b'${tmp-dir}', b'${comment-path}', b'a${report-path}', b'${tags-path}', b'${builddir}${builddir}'])
+        root = [rootkw, q(R + b'/' + st['root'] + b'/${' + via + b'}')]
+        late = [via] + self.listtoks(r.choice([[inner], [b'x', inner], []]))
+        k = r.random()
+        if k < 0.15:
+            ents = [late, root] + ents                       # defined first: the root directory is rejected while parsing
+            label = 'builddir-reentry-early'
+        else:
+            ents = [root] + ents
+            ents.insert(r.randint(1, len(ents)), late)
+            label = 'builddir-reentry'
+        if mode in ('robsd', 'robsd-cross', 'robsd-regress') and r.random() < 0.3:
+            ents.append([b'bsd-srcdir', q(r.choice([b'${builddir}', b'${robsddir}', b'${tmp-dir}']))])
+            ents = [e for i, e in enumerate(ents) if e[0] != b'bsd-srcdir' or i == len(ents) - 1]
+            label += '-parse'
+        return label, self.render(ents, plain=r.random() < 0.5)
 
     # ---- single-edit corruptions
     def corrupt(self, mode, ents, st):
@@ -244,8 +279,19 @@ class Gen:
             cand = [i for i, e in enumerate(ents) if e[0] in kinds and not kinds[e[0]][2]]
             if cand:
                 i = r.choice(cand)
-                e = list(ents[i]) if r.random() < 0.5 else [ents[i][0]] + self.value(kinds[ents[i][0]][0], st)
+                k = r.random()
+                if k < 0.4:
+                    e = list(ents[i])
+                elif k < 0.7:
+                    e = [ents[i][0]] + self.value(kinds[ents[i][0]][0], st)
+                else:
+                    # the repeated keyword's own parser answers ERROR, NOP or FATAL as well (Conf/ConfAbort.v: parse_keyword)
+                    e = [ents[i][0]] + r.choice([[b'1'], [q(b'str')], [b'yes'], [b'{', q(b'a'), b'}'], [b'{', q(b'a')], [b'{', b'1', b'}'], [],
+                                                 [q(R + b'/nope')], [q(R + b'/root/nomatch-*.diff')], [q(b'nosuchuser9')], [b'99999999999'],
+                                                 [b'1', b'x'], [q(b'${nope}')], [b'""']])
                 ents.insert(r.randint(i + 1, len(ents)), e)
+                if r.random() < 0.25:
+                    ents.insert(r.randint(i + 1, len(ents)), list(ents[i]))          # a third occurrence
         elif pick == 'missing-dir':
             c = with_kind(['dir'])
             if c:
